@@ -12,6 +12,7 @@ import (
 	"gitlab.com/gomidi/midi/v2/smf"
 
 	"verif/harness/mon"
+	"verif/harness/ref"
 )
 
 var errInjected = errors.New("injected I/O fault")
@@ -85,7 +86,7 @@ func init() {
 			"faults placed after the last byte the reader consumes are not counted (the library never sees them)",
 			"WriteFile faults are injected by the kernel through RLIMIT_FSIZE with SIGXFSZ ignored (write returns EFBIG after a short write up to the limit)",
 		},
-		Require: []string{"write_faults_injected", "write_faults_short", "write_faults_after_header", "read_faults_returned", "read_faults_with_data", "writefile_faults", "unfaulted_writes"},
+		Require: []string{"write_faults_injected", "write_faults_short", "write_faults_after_header", "read_faults_returned", "read_faults_with_data", "writefile_faults", "unfaulted_writes", "read_faults_big_payload"},
 		Run:     runC10,
 	})
 }
@@ -93,12 +94,12 @@ func init() {
 func runC10(c *mon.Ctx) {
 	c.Each("files", c.N(200, 20_000), func(i int64, r *mon.Rand) {
 		a := buildHistory(r, 1<<32-1, false)
-		var ref bytes.Buffer
-		n0, err := a.s.WriteTo(&ref)
+		var refBuf bytes.Buffer
+		n0, err := a.s.WriteTo(&refBuf)
 		if err != nil {
 			return
 		}
-		b := ref.Bytes()
+		b := refBuf.Bytes()
 		S := len(b)
 		if S > 1500 {
 			S = 1500 // bound per-file work; offsets beyond are sampled below
@@ -180,14 +181,88 @@ func runC10(c *mon.Ctx) {
 		}
 	})
 
+	// ---- files with a payload above the chunked-read threshold: faults around and inside the payload
+	c.Each("big-payload", c.N(16, 200), func(i int64, r *mon.Rand) {
+		n := r.Pick(4096, 4097, 5000, 8192, 16384, 16385)
+		p := r.Bytes7(n)
+		var big []byte
+		if i%2 == 0 {
+			big = ref.Meta(0x01, p)
+		} else {
+			big = append(append([]byte{0xF0}, p...), 0xF7)
+		}
+		s := smf.NewSMF1()
+		var t1, t2 smf.Track
+		t1.Add(0, []byte{0x90, 1, 1})
+		t1.Close(0)
+		t2.Add(1, []byte{0x91, 2, 2})
+		t2.Add(0, big)
+		t2.Add(5, []byte{0x81, 2, 0})
+		t2.Close(0)
+		if i%4 < 2 {
+			s.Add(t1)
+			s.Add(t2) // big event in the last track
+		} else {
+			s.Add(t2)
+			s.Add(t1)
+		}
+		var buf bytes.Buffer
+		if _, err := s.WriteTo(&buf); err != nil {
+			return
+		}
+		b := buf.Bytes()
+		start := bytes.Index(b, p[:16])
+		var offs []int
+		for k := 0; k < len(b); k++ {
+			if k < 120 || k > len(b)-60 || (k >= start-12 && k < start+12) || (k%4096) < 3 || (k%4096) > 4093 || r.P(1, 200) || c.Thorough() {
+				offs = append(offs, k)
+			}
+		}
+		in := map[string]any{"file": fmt.Sprintf("%d bytes with one payload of %d bytes starting at offset %d", len(b), n, start)}
+		for _, k := range offs {
+			for _, withData := range []bool{false, true} {
+				rd := &faultReader{b: b, limit: k, withData: withData}
+				var v *smf.SMF
+				var err error
+				in["fault_offset"], in["error_with_data"] = k, withData
+				if c.Guard("panic:ReadFrom", in, func() { v, err = smf.ReadFrom(rd) }) {
+					continue
+				}
+				c.Eval(1)
+				if rd.returned == 0 {
+					continue
+				}
+				c.Count("read_faults_returned", 1)
+				c.Count("read_faults_big_payload", 1)
+				if err == nil {
+					nt := -1
+					if v != nil {
+						nt = len(v.Tracks)
+					}
+					c.Violation("read-fault-swallowed", fmt.Sprintf("source failed with a non-EOF error at byte offset %d of %d (payload of %d bytes starts at %d) but ReadFrom returned nil error (value with %d tracks)", k, len(b), n, start, nt), in, "error", "nil")
+				}
+			}
+			for _, short := range []bool{false, true} {
+				w := &faultWriter{limit: k, short: short}
+				_, err := s.WriteTo(w)
+				c.Count("write_faults_injected", 1)
+				c.Eval(1)
+				if err == nil {
+					c.Violation("write-fault-swallowed", fmt.Sprintf("destination failed at byte offset %d of %d (short=%v) but WriteTo returned nil", k, len(b), short), in, "error", "nil")
+				}
+			}
+		}
+		c.DistinctBytes([]byte(fmt.Sprint("big", i, n)))
+	})
+
 	// ---- real files: WriteFile under RLIMIT_FSIZE at every byte offset
 	c.Each("writefile", c.N(24, 2000), func(i int64, r *mon.Rand) {
 		a := buildHistory(r, 1<<32-1, false)
-		var ref bytes.Buffer
-		if _, err := a.s.WriteTo(&ref); err != nil {
+		var refBuf bytes.Buffer
+		if _, err := a.s.WriteTo(&refBuf); err != nil {
 			return
 		}
-		size := ref.Len()
+		size := refBuf.Len()
 		if size > 600 {
 			return
 		}
@@ -227,7 +302,7 @@ func runC10(c *mon.Ctx) {
 		// and without limit the file is complete
 		if err := a.s.WriteFile(path); err != nil {
 			c.Violation("writefile-unfaulted", fmt.Sprintf("WriteFile without fault fails: %v", err), a.desc, nil, err.Error())
-		} else if got, _ := os.ReadFile(path); !bytes.Equal(got, ref.Bytes()) {
+		} else if got, _ := os.ReadFile(path); !bytes.Equal(got, refBuf.Bytes()) {
 			c.Violation("writefile-content", "WriteFile content differs from WriteTo", a.desc, nil, nil)
 		}
 	})
